@@ -301,7 +301,8 @@ pub fn campaigns(ctx: &Ctx) -> Stats {
     // softmax / exp / sigmoid far from zero: rows at very different offsets (all finite in f32 and f64)
     st.merge(ctx.run_indexed("wide-range-rows", 6 * 5 * 5 * 3, None, |i| {
         let shapes: [&[usize]; 6] = [&[3], &[2, 3], &[3, 2], &[2, 2, 2], &[4, 1, 3], &[2, 3, 1]];
-        let offs: [f64; 5] = if crate::exec::IS_F32 { [-60.0, -25.0, 0.0, 30.0, 55.0] } else { [-600.0, -350.0, 0.0, 360.0, 650.0] };
+        // (the lowest offset makes a row's exponentials sum to a SUBNORMAL number: the quotients are still ordinary)
+        let offs: [f64; 5] = if crate::exec::IS_F32 { [-95.0, -25.0, 0.0, 30.0, 55.0] } else { [-720.0, -350.0, 0.0, 360.0, 650.0] };
         let d = shapes[(i % 6) as usize];
         let (o1, o2) = (offs[((i / 6) % 5) as usize], offs[((i / 30) % 5) as usize]);
         let l = *d.last().unwrap();
